@@ -10,4 +10,757 @@ namespace Tickit
 def Wiring.Acyclic (w : Wiring) : Prop :=
   ∃ rank : Comp → Nat, ∀ c us u, w.ups c = some us → u ∈ us → rank u < rank c
 
+variable {Val : Type}
+
+/-! ### `markDispatched` -/
+
+@[simp] theorem akeys_markDispatched (tu : List (Comp × Bool)) (cs : List Comp) :
+    akeys (markDispatched tu cs) = akeys tu := by
+  induction tu with
+  | nil => rfl
+  | cons e tu ih =>
+    simp only [markDispatched, List.map_cons, akeys_cons] at *
+    rw [ih]; split <;> rfl
+
+@[simp] theorem length_markDispatched (tu : List (Comp × Bool)) (cs : List Comp) :
+    (markDispatched tu cs).length = tu.length := by simp [markDispatched]
+
+theorem markDispatched_eq_nil {tu : List (Comp × Bool)} {cs : List Comp} :
+    markDispatched tu cs = [] ↔ tu = [] := by simp [markDispatched]
+
+theorem alookup_markDispatched (tu : List (Comp × Bool)) (cs : List Comp) (c : Comp) :
+    alookup (markDispatched tu cs) c = (alookup tu c).map (fun b => b || decide (c ∈ cs)) := by
+  induction tu with
+  | nil => rfl
+  | cons e tu ih =>
+    obtain ⟨k, v⟩ := e
+    simp only [markDispatched, List.map_cons] at *
+    by_cases hk : k = c
+    · subst hk
+      by_cases hm : k ∈ cs <;> simp [hm, alookup_cons]
+    · by_cases hm : k ∈ cs <;> simp [hm, alookup_cons, hk, ih]
+
+theorem alookup_markDispatched_eq_none {tu : List (Comp × Bool)} {cs : List Comp} {c : Comp} :
+    alookup (markDispatched tu cs) c = none ↔ alookup tu c = none := by
+  simp [alookup_markDispatched]
+
+theorem alookup_markDispatched_eq_true {tu : List (Comp × Bool)} {cs : List Comp} {c : Comp} :
+    alookup (markDispatched tu cs) c = some true ↔
+      alookup tu c = some true ∨ (alookup tu c = some false ∧ c ∈ cs) := by
+  rw [alookup_markDispatched]
+  cases h : alookup tu c with
+  | none => simp
+  | some b => cases b <;> simp
+
+theorem alookup_markDispatched_eq_false {tu : List (Comp × Bool)} {cs : List Comp} {c : Comp} :
+    alookup (markDispatched tu cs) c = some false ↔ alookup tu c = some false ∧ c ∉ cs := by
+  rw [alookup_markDispatched]
+  cases h : alookup tu c with
+  | none => simp
+  | some b => cases b <;> simp
+
+/-! ### `startTick` -/
+
+/-- a fresh `to_update`: unique keys, nothing dispatched. -/
+def FreshTU (tu : List (Comp × Bool)) : Prop :=
+  (akeys tu).Nodup ∧ ∀ c, alookup tu c ≠ some true
+
+theorem FreshTU.upsert {tu : List (Comp × Bool)} (h : FreshTU tu) (c : Comp) :
+    FreshTU (upsert tu c false) := by
+  refine ⟨nodup_akeys_upsert h.1 c false, fun x => ?_⟩
+  rw [alookup_upsert]
+  split
+  · simp
+  · exact h.2 x
+
+theorem FreshTU.foldl_upsert {tu : List (Comp × Bool)} (h : FreshTU tu) (cs : List Comp) :
+    FreshTU (cs.foldl (fun acc c => Tickit.upsert acc c false) tu) := by
+  induction cs generalizing tu with
+  | nil => exact h
+  | cons c cs ih => exact ih (h.upsert c)
+
+theorem startTick_toUpdate (w : Wiring) (t : SimTime) (roots : List Comp) :
+    akeys (Ticker.startTick w t roots : Ticker Val).toUpdate = extent w roots := rfl
+
+theorem startTick_fresh (w : Wiring) (t : SimTime) (roots : List Comp) :
+    FreshTU (Ticker.startTick w t roots : Ticker Val).toUpdate := by
+  simp only [Ticker.startTick]
+  suffices h : ∀ (rs : List Comp) (tu : List (Comp × Bool)), FreshTU tu →
+      FreshTU (rs.foldl (fun acc r => (w.dependants r).foldl (fun acc c => upsert acc c false) acc) tu) from
+    h roots [] ⟨by simp, by simp⟩
+  intro rs
+  induction rs with
+  | nil => exact fun _ h => h
+  | cons r rs ih => exact fun tu h => ih _ (h.foldl_upsert _)
+
+/-! ### `scheduleLoop` -/
+
+@[simp] theorem Ticker.decide_comp (tk : Ticker Val) (c : Comp) : (tk.decide c).comp = c := by
+  unfold Ticker.decide; simp only []; split <;> rfl
+
+@[simp] theorem Ticker.decide_time (tk : Ticker Val) (c : Comp) : (tk.decide c).time = tk.time := by
+  unfold Ticker.decide; simp only []; split <;> rfl
+
+theorem Ticker.blocked_eq_false {tk : Ticker Val} {us : List Comp} :
+    tk.blocked us = false ↔ ∀ u ∈ us, alookup tk.toUpdate u = none := by
+  simp [Ticker.blocked]
+
+theorem Ticker.blocked_eq_true {tk : Ticker Val} {us : List Comp} :
+    tk.blocked us = true ↔ ∃ u ∈ us, alookup tk.toUpdate u ≠ none := by
+  simp [Ticker.blocked, Option.isSome_iff_ne_none]
+
+/-- the selection made by one pass of `schedule_possible_updates`. -/
+def Ticker.selects (w : Wiring) (tk : Ticker Val) (e : Comp × Bool) : Bool :=
+  !e.2 && !tk.blocked ((w.ups e.1).getD [])
+
+theorem scheduleLoop_spec {w : Wiring} {tk : Ticker Val} {l : List (Comp × Bool)}
+    {ds : List (Dispatch Val)} (h : Ticker.scheduleLoop w tk l = .ok ds) :
+    ds = (l.filter (tk.selects w)).map (fun e => tk.decide e.1) ∧
+      ∀ e ∈ l, e.2 = false → (w.ups e.1).isSome = true := by
+  induction l generalizing ds with
+  | nil =>
+    simp only [Ticker.scheduleLoop] at h
+    cases h; simp
+  | cons e l ih =>
+    obtain ⟨c, flag⟩ := e
+    simp only [Ticker.scheduleLoop] at h
+    cases flag with
+    | true =>
+      simp only [if_true] at h
+      obtain ⟨h1, h2⟩ := ih h
+      refine ⟨?_, ?_⟩
+      · simp [Ticker.selects, ← h1]
+      · intro e he hf
+        rcases List.mem_cons.1 he with rfl | he
+        · simp at hf
+        · exact h2 e he hf
+    | false =>
+      simp only [Bool.false_eq_true, if_false] at h
+      cases hu : w.ups c with
+      | none => simp [hu] at h
+      | some ups =>
+        simp only [hu] at h
+        cases hb : tk.blocked ups with
+        | true =>
+          simp only [hb, if_true] at h
+          obtain ⟨h1, h2⟩ := ih h
+          refine ⟨?_, ?_⟩
+          · simp [Ticker.selects, hu, hb, ← h1]
+          · intro e he hf
+            rcases List.mem_cons.1 he with rfl | he
+            · simp [hu]
+            · exact h2 e he hf
+        | false =>
+          simp only [hb, Bool.false_eq_true, if_false] at h
+          cases hr : Ticker.scheduleLoop w tk l with
+          | error err => simp [hr, Except.map] at h
+          | ok ds' =>
+            simp only [hr, Except.map, Except.ok.injEq] at h
+            obtain ⟨h1, h2⟩ := ih hr
+            refine ⟨?_, ?_⟩
+            · simp [Ticker.selects, hu, hb, ← h1, ← h]
+            · intro e he hf
+              rcases List.mem_cons.1 he with rfl | he
+              · simp [hu]
+              · exact h2 e he hf
+
+theorem scheduleLoop_ok {w : Wiring} (tk : Ticker Val) {l : List (Comp × Bool)}
+    (h : ∀ e ∈ l, e.2 = false → (w.ups e.1).isSome = true) :
+    ∃ ds, Ticker.scheduleLoop w tk l = .ok ds := by
+  induction l with
+  | nil => exact ⟨[], rfl⟩
+  | cons e l ih =>
+    obtain ⟨c, flag⟩ := e
+    obtain ⟨ds, hds⟩ := ih (fun e he => h e (List.mem_cons_of_mem _ he))
+    simp only [Ticker.scheduleLoop]
+    cases flag with
+    | true => exact ⟨ds, by simpa using hds⟩
+    | false =>
+      have := h (c, false) (by simp) rfl
+      obtain ⟨ups, hu⟩ := Option.isSome_iff_exists.1 this
+      simp only [Bool.false_eq_true, if_false, hu, hds]
+      split
+      · exact ⟨_, rfl⟩
+      · exact ⟨_, rfl⟩
+
+/-- components selected by one scheduling pass. -/
+theorem scheduleLoop_comps {w : Wiring} {tk : Ticker Val} {l : List (Comp × Bool)}
+    {ds : List (Dispatch Val)} (h : Ticker.scheduleLoop w tk l = .ok ds) :
+    ds.map Dispatch.comp = (l.filter (tk.selects w)).map (·.1) := by
+  rw [(scheduleLoop_spec h).1, List.map_map]
+  apply List.map_congr_left
+  intro e _; simp
+
+theorem nodup_scheduleLoop_comps {w : Wiring} {tk : Ticker Val} {l : List (Comp × Bool)}
+    {ds : List (Dispatch Val)} (hn : (akeys l).Nodup) (h : Ticker.scheduleLoop w tk l = .ok ds) :
+    (ds.map Dispatch.comp).Nodup := by
+  rw [scheduleLoop_comps h]
+  exact List.Sublist.nodup (List.Sublist.map _ List.filter_sublist) hn
+
+theorem mem_scheduleLoop_comps {w : Wiring} {tk : Ticker Val} {l : List (Comp × Bool)}
+    {ds : List (Dispatch Val)} (hn : (akeys l).Nodup) (h : Ticker.scheduleLoop w tk l = .ok ds)
+    {c : Comp} :
+    c ∈ ds.map Dispatch.comp ↔
+      alookup l c = some false ∧ ∃ us, w.ups c = some us ∧ ∀ u ∈ us, alookup tk.toUpdate u = none := by
+  rw [scheduleLoop_comps h]
+  have h2 := (scheduleLoop_spec h).2
+  constructor
+  · intro hc
+    obtain ⟨e, he, rfl⟩ := List.mem_map.1 hc
+    obtain ⟨he, hsel⟩ := List.mem_filter.1 he
+    obtain ⟨c, b⟩ := e
+    simp only [Ticker.selects, Bool.and_eq_true, Bool.not_eq_true'] at hsel
+    obtain ⟨hb, hbl⟩ := hsel
+    subst hb
+    obtain ⟨us, hus⟩ := Option.isSome_iff_exists.1 (h2 _ he rfl)
+    refine ⟨alookup_eq_some_of_mem hn he, us, hus, ?_⟩
+    simp only [hus, Option.getD_some] at hbl
+    exact Ticker.blocked_eq_false.1 hbl
+  · rintro ⟨hl, us, hus, hall⟩
+    refine List.mem_map.2 ⟨(c, false), List.mem_filter.2 ⟨mem_of_alookup_eq_some hl, ?_⟩, rfl⟩
+    simp only [Ticker.selects, Bool.not_false, Bool.true_and, hus, Option.getD_some,
+      Bool.not_eq_true']
+    exact Ticker.blocked_eq_false.2 hall
+
+theorem time_of_mem_scheduleLoop {w : Wiring} {tk : Ticker Val} {l : List (Comp × Bool)}
+    {ds : List (Dispatch Val)} (h : Ticker.scheduleLoop w tk l = .ok ds) {d : Dispatch Val}
+    (hd : d ∈ ds) : d.time = tk.time := by
+  rw [(scheduleLoop_spec h).1] at hd
+  obtain ⟨e, _, rfl⟩ := List.mem_map.1 hd
+  simp
+
+/-! ### traces -/
+
+theorem append_eq_append_cons {α : Type} {l1 l2 pre post : List α} {x : α}
+    (h : l1 ++ l2 = pre ++ x :: post) :
+    (∃ post', l1 = pre ++ x :: post' ∧ post = post' ++ l2) ∨
+      (∃ pre', pre = l1 ++ pre' ∧ l2 = pre' ++ x :: post) := by
+  rcases List.append_eq_append_iff.1 h with ⟨as, h1, h2⟩ | ⟨bs, h1, h2⟩
+  · exact Or.inr ⟨as, h1, h2⟩
+  · cases bs with
+    | nil =>
+      refine Or.inr ⟨[], by simpa using h1.symm, by simpa using h2.symm⟩
+    | cons b bs =>
+      simp only [List.cons_append, List.cons.injEq] at h2
+      obtain ⟨rfl, rfl⟩ := h2
+      exact Or.inl ⟨bs, h1, rfl⟩
+
+theorem getElem?_split {α : Type} {l : List α} {i : Nat} {d : α} (h : l[i]? = some d) :
+    ∃ p1 p2, l = p1 ++ d :: p2 ∧ l.eraseIdx i = p1 ++ p2 := by
+  induction l generalizing i with
+  | nil => simp at h
+  | cons a l ih =>
+    cases i with
+    | zero =>
+      simp at h; subst h
+      exact ⟨[], l, rfl, rfl⟩
+    | succ i =>
+      simp at h
+      obtain ⟨p1, p2, h1, h2⟩ := ih h
+      exact ⟨a :: p1, p2, by simp [h1], by simp [h2]⟩
+
+theorem filter_isDispatchOf_eq_nil {tr : List (Ev Val)} {c : Comp}
+    (h : ∀ d, Ev.dispatch d ∈ tr → d.comp ≠ c) : tr.filter (Ev.isDispatchOf c) = [] := by
+  rw [List.filter_eq_nil_iff]
+  intro e he
+  cases e with
+  | dispatch d => simpa [Ev.isDispatchOf] using h d he
+  | answer c' ch => simp [Ev.isDispatchOf]
+
+theorem filter_isAnswerOf_eq_nil {tr : List (Ev Val)} {c : Comp}
+    (h : ∀ ch, Ev.answer c ch ∉ tr) : tr.filter (Ev.isAnswerOf c) = [] := by
+  rw [List.filter_eq_nil_iff]
+  intro e he
+  cases e with
+  | dispatch d => simp [Ev.isAnswerOf]
+  | answer c' ch =>
+    simp only [Ev.isAnswerOf, beq_iff_eq]
+    intro hc; subst hc; exact h ch he
+
+theorem one_le_filter_isDispatchOf {tr : List (Ev Val)} {d : Dispatch Val}
+    (h : Ev.dispatch d ∈ tr) : 1 ≤ (tr.filter (Ev.isDispatchOf d.comp)).length :=
+  List.length_pos_of_mem (List.mem_filter.2 ⟨h, by simp [Ev.isDispatchOf]⟩)
+
+theorem filter_isAnswerOf_map_dispatch (ds : List (Dispatch Val)) (c : Comp) :
+    (ds.map Ev.dispatch).filter (Ev.isAnswerOf c) = [] := by
+  apply filter_isAnswerOf_eq_nil
+  intro ch h
+  simp at h
+
+theorem filter_isDispatchOf_map_dispatch_of_not_mem {ds : List (Dispatch Val)} {c : Comp}
+    (h : c ∉ ds.map Dispatch.comp) : (ds.map Ev.dispatch).filter (Ev.isDispatchOf c) = [] := by
+  apply filter_isDispatchOf_eq_nil
+  intro d hd hc
+  simp only [List.mem_map, Ev.dispatch.injEq, exists_eq_right] at hd
+  exact h (List.mem_map.2 ⟨d, hd, hc⟩)
+
+theorem length_filter_isDispatchOf_map_dispatch {ds : List (Dispatch Val)}
+    (hn : (ds.map Dispatch.comp).Nodup) (c : Comp) :
+    ((ds.map Ev.dispatch).filter (Ev.isDispatchOf c)).length ≤ 1 := by
+  induction ds with
+  | nil => simp
+  | cons d ds ih =>
+    simp only [List.map_cons, List.nodup_cons] at hn
+    simp only [List.map_cons, List.filter_cons]
+    by_cases hc : d.comp = c
+    · subst hc
+      simp [Ev.isDispatchOf, filter_isDispatchOf_map_dispatch_of_not_mem hn.1]
+    · simpa [Ev.isDispatchOf, hc] using ih hn.2
+
+/-! ### the tick invariant -/
+
+/-- The part of the tick invariant that relates `to_update`, the pending dispatches and the
+trace; it also holds in the intermediate state between "answer removed from `to_update`" and
+the following `schedule_possible_updates`. -/
+structure PreInv (w : Wiring) (t : SimTime) (roots : List Comp) (tu : List (Comp × Bool))
+    (pending : List (Dispatch Val)) (trace : List (Ev Val)) : Prop where
+  /-- `to_update` is a dict -/
+  nodup : (akeys tu).Nodup
+  /-- pending ↔ flagged -/
+  pend_flag : ∀ c, (∃ d ∈ pending, d.comp = c) ↔ alookup tu c = some true
+  pend_nodup : (pending.map Dispatch.comp).Nodup
+  pend_trace : ∀ d ∈ pending, Ev.dispatch d ∈ trace
+  /-- gate: a flagged component has no unresolved upstream -/
+  gate : ∀ c, alookup tu c = some true → ∀ us, w.ups c = some us → ∀ u ∈ us, alookup tu u = none
+  keys_ext : ∀ c, alookup tu c ≠ none → c ∈ extent w roots
+  /-- resolved = answered -/
+  resolved : ∀ c ∈ extent w roots, (alookup tu c = none ↔ ∃ ch, Ev.answer c ch ∈ trace)
+  disp_ext : ∀ d, Ev.dispatch d ∈ trace → d.comp ∈ extent w roots ∧ d.time = t
+  /-- whatever was dispatched is flagged or resolved -/
+  disp_flag : ∀ d, Ev.dispatch d ∈ trace → alookup tu d.comp ≠ some false
+  /-- at every dispatch all in-extent upstreams have answered -/
+  order : ∀ pre d post, trace = pre ++ Ev.dispatch d :: post → ∀ us, w.ups d.comp = some us →
+    ∀ u ∈ us, u ∈ extent w roots → ∃ ch, Ev.answer u ch ∈ pre
+  count : ∀ c, (trace.filter (Ev.isDispatchOf c)).length ≤ 1 ∧
+    (trace.filter (Ev.isAnswerOf c)).length ≤ (trace.filter (Ev.isDispatchOf c)).length
+
+/-- post-schedule completeness: every unflagged member of `to_update` is blocked. -/
+def Complete (w : Wiring) (tu : List (Comp × Bool)) : Prop :=
+  ∀ c, alookup tu c = some false → ∃ us, w.ups c = some us ∧ ∃ u ∈ us, alookup tu u ≠ none
+
+theorem PreInv.start (w : Wiring) (t : SimTime) (roots : List Comp) :
+    PreInv (Val := Val) w t roots (Ticker.startTick w t roots : Ticker Val).toUpdate [] [] := by
+  have hf := startTick_fresh (Val := Val) w t roots
+  have hk := startTick_toUpdate (Val := Val) w t roots
+  exact
+    { nodup := hf.1
+      pend_flag := fun c => ⟨by simp, fun h => absurd h (hf.2 c)⟩
+      pend_nodup := by simp
+      pend_trace := by simp
+      gate := fun c h => absurd h (hf.2 c)
+      keys_ext := fun c h => hk ▸ alookup_ne_none_iff.1 h
+      resolved := fun c hc => ⟨fun h => absurd (hk ▸ hc) (alookup_eq_none_iff.1 h), by simp⟩
+      disp_ext := by simp
+      disp_flag := by simp
+      order := by simp
+      count := by simp }
+
+theorem PreInv.answer {w : Wiring} {t : SimTime} {roots : List Comp} {tu : List (Comp × Bool)}
+    {pending : List (Dispatch Val)} {trace : List (Ev Val)} (h : PreInv w t roots tu pending trace)
+    {i : Nat} {d : Dispatch Val} (hd : pending[i]? = some d) (ch : List (Port × Val)) :
+    PreInv w t roots (aerase tu d.comp) (pending.eraseIdx i) (trace ++ [Ev.answer d.comp ch]) := by
+  obtain ⟨p1, p2, hp, he⟩ := getElem?_split hd
+  rw [he]
+  have hdm : d ∈ pending := by rw [hp]; simp
+  have h0 : alookup tu d.comp = some true := (h.pend_flag _).1 ⟨d, hdm, rfl⟩
+  have hnd := h.pend_nodup
+  rw [hp] at hnd
+  simp only [List.map_append, List.map_cons, List.nodup_append, List.nodup_cons] at hnd
+  obtain ⟨n1, ⟨na, n2⟩, ndis⟩ := hnd
+  have hnd1 : d.comp ∉ (p1 ++ p2).map Dispatch.comp := by
+    rw [List.map_append, List.mem_append]
+    rintro (hm | hm)
+    · exact ndis _ hm _ (List.mem_cons_self) rfl
+    · exact na hm
+  have hnd2 : ((p1 ++ p2).map Dispatch.comp).Nodup := by
+    rw [List.map_append, List.nodup_append]
+    exact ⟨n1, n2, fun a ha b hb => ndis a ha b (List.mem_cons_of_mem _ hb)⟩
+  have hsub : ∀ d' ∈ p1 ++ p2, d' ∈ pending := by
+    rw [hp]; intro d' h'
+    simp only [List.mem_append, List.mem_cons] at h' ⊢
+    rcases h' with h' | h'
+    · exact Or.inl h'
+    · exact Or.inr (Or.inr h')
+  have hmem : ∀ d' ∈ pending, d' = d ∨ d' ∈ p1 ++ p2 := by
+    rw [hp]; intro d' h'
+    simp only [List.mem_append, List.mem_cons] at h' ⊢
+    rcases h' with h' | h' | h'
+    · exact Or.inr (Or.inl h')
+    · exact Or.inl h'
+    · exact Or.inr (Or.inr h')
+  exact
+    { nodup := nodup_akeys_aerase h.nodup _
+      pend_flag := by
+        intro c
+        rw [alookup_aerase h.nodup]
+        by_cases hc : c = d.comp
+        · subst hc
+          simp only [if_true]
+          constructor
+          · rintro ⟨d', hd', hc'⟩
+            exact absurd (List.mem_map.2 ⟨d', hd', hc'⟩) hnd1
+          · intro h'; cases h'
+        · simp only [hc, if_false]
+          rw [← h.pend_flag c]
+          constructor
+          · rintro ⟨d', hd', hc'⟩; exact ⟨d', hsub d' hd', hc'⟩
+          · rintro ⟨d', hd', hc'⟩
+            rcases hmem d' hd' with rfl | hm
+            · exact absurd hc'.symm hc
+            · exact ⟨d', hm, hc'⟩
+      pend_nodup := hnd2
+      pend_trace := fun d' hd' => List.mem_append_left _ (h.pend_trace d' (hsub d' hd'))
+      gate := by
+        intro c hc us hus u hu
+        rw [alookup_aerase h.nodup] at hc
+        split at hc
+        · cases hc
+        · exact alookup_aerase_eq_none (h.gate c hc us hus u hu)
+      keys_ext := fun c hc => h.keys_ext c (fun hn => hc (alookup_aerase_eq_none hn))
+      resolved := by
+        intro c hc
+        rw [alookup_aerase h.nodup]
+        by_cases hcd : c = d.comp
+        · subst hcd
+          simp only [if_true, true_iff]
+          exact ⟨ch, by simp⟩
+        · simp only [hcd, if_false]
+          rw [h.resolved c hc]
+          constructor
+          · rintro ⟨ch', h'⟩; exact ⟨ch', List.mem_append_left _ h'⟩
+          · rintro ⟨ch', h'⟩
+            simp only [List.mem_append, List.mem_singleton, Ev.answer.injEq] at h'
+            rcases h' with h' | ⟨h1, _⟩
+            · exact ⟨ch', h'⟩
+            · exact absurd h1 hcd
+      disp_ext := by
+        intro d' hd'
+        simp only [List.mem_append, List.mem_singleton, reduceCtorEq, or_false] at hd'
+        exact h.disp_ext d' hd'
+      disp_flag := by
+        intro d' hd'
+        simp only [List.mem_append, List.mem_singleton, reduceCtorEq, or_false] at hd'
+        rw [alookup_aerase h.nodup]
+        split
+        · simp
+        · exact h.disp_flag d' hd'
+      order := by
+        intro pre d' post htr us hus u hu hue
+        rcases append_eq_append_cons htr with ⟨post', h1, _⟩ | ⟨pre', _, h2⟩
+        · exact h.order pre d' post' h1 us hus u hu hue
+        · cases pre' <;> simp at h2
+      count := by
+        intro c
+        have hc := h.count c
+        simp only [List.filter_append, List.length_append]
+        by_cases hcd : d.comp = c
+        · subst hcd
+          have hans : trace.filter (Ev.isAnswerOf d.comp) = [] :=
+            filter_isAnswerOf_eq_nil (fun ch' hm => by
+              have := (h.resolved d.comp (h.keys_ext _ (by rw [h0]; simp))).2 ⟨ch', hm⟩
+              rw [h0] at this; cases this)
+          have hdis := one_le_filter_isDispatchOf (h.pend_trace d hdm)
+          simp [Ev.isDispatchOf, Ev.isAnswerOf, hans]
+          omega
+        · simpa [Ev.isDispatchOf, Ev.isAnswerOf, hcd] using hc }
+
+theorem PreInv.schedule {w : Wiring} {t : SimTime} {roots : List Comp} {tk : Ticker Val}
+    {pending : List (Dispatch Val)} {trace : List (Ev Val)} {ds : List (Dispatch Val)}
+    (h : PreInv w t roots tk.toUpdate pending trace) (ht : tk.time = t)
+    (hs : Ticker.scheduleLoop w tk tk.toUpdate = .ok ds) :
+    PreInv w t roots (markDispatched tk.toUpdate (ds.map Dispatch.comp)) (pending ++ ds)
+        (trace ++ ds.map Ev.dispatch) ∧
+      Complete w (markDispatched tk.toUpdate (ds.map Dispatch.comp)) := by
+  have hmem : ∀ {c : Comp}, c ∈ ds.map Dispatch.comp ↔
+      alookup tk.toUpdate c = some false ∧
+        ∃ us, w.ups c = some us ∧ ∀ u ∈ us, alookup tk.toUpdate u = none :=
+    mem_scheduleLoop_comps h.nodup hs
+  have hnd := nodup_scheduleLoop_comps h.nodup hs
+  refine ⟨?_, ?_⟩
+  · exact
+    { nodup := by simpa using h.nodup
+      pend_flag := by
+        intro c
+        rw [alookup_markDispatched_eq_true]
+        constructor
+        · rintro ⟨d, hd, rfl⟩
+          rcases List.mem_append.1 hd with hd | hd
+          · exact Or.inl ((h.pend_flag _).1 ⟨d, hd, rfl⟩)
+          · have hc : d.comp ∈ ds.map Dispatch.comp := List.mem_map.2 ⟨d, hd, rfl⟩
+            exact Or.inr ⟨(hmem.1 hc).1, hc⟩
+        · rintro (hc | ⟨_, hc⟩)
+          · obtain ⟨d, hd, hdc⟩ := (h.pend_flag c).2 hc
+            exact ⟨d, List.mem_append_left _ hd, hdc⟩
+          · obtain ⟨d, hd, hdc⟩ := List.mem_map.1 hc
+            exact ⟨d, List.mem_append_right _ hd, hdc⟩
+      pend_nodup := by
+        rw [List.map_append, List.nodup_append]
+        refine ⟨h.pend_nodup, hnd, ?_⟩
+        intro a ha b hb hab
+        subst hab
+        obtain ⟨d, hd, rfl⟩ := List.mem_map.1 ha
+        have h1 := (h.pend_flag _).1 ⟨d, hd, rfl⟩
+        have h2 := (hmem.1 hb).1
+        rw [h1] at h2
+        simp at h2
+      pend_trace := by
+        intro d hd
+        rcases List.mem_append.1 hd with hd | hd
+        · exact List.mem_append_left _ (h.pend_trace d hd)
+        · exact List.mem_append_right _ (List.mem_map.2 ⟨d, hd, rfl⟩)
+      gate := by
+        intro c hc us hus u hu
+        rw [alookup_markDispatched_eq_none]
+        rcases alookup_markDispatched_eq_true.1 hc with hc | ⟨_, hc⟩
+        · exact h.gate c hc us hus u hu
+        · obtain ⟨_, us', hus', hall⟩ := hmem.1 hc
+          rw [hus] at hus'; cases hus'
+          exact hall u hu
+      keys_ext := fun c hc => h.keys_ext c (fun hn => hc (alookup_markDispatched_eq_none.2 hn))
+      resolved := by
+        intro c hc
+        rw [alookup_markDispatched_eq_none, h.resolved c hc]
+        constructor
+        · rintro ⟨ch, hm⟩; exact ⟨ch, List.mem_append_left _ hm⟩
+        · rintro ⟨ch, hm⟩
+          simp only [List.mem_append, List.mem_map, reduceCtorEq, and_false, exists_false,
+            or_false] at hm
+          exact ⟨ch, hm⟩
+      disp_ext := by
+        intro d hd
+        rcases List.mem_append.1 hd with hd | hd
+        · exact h.disp_ext d hd
+        · simp only [List.mem_map, Ev.dispatch.injEq, exists_eq_right] at hd
+          have hc : d.comp ∈ ds.map Dispatch.comp := List.mem_map.2 ⟨d, hd, rfl⟩
+          exact ⟨h.keys_ext _ (by rw [(hmem.1 hc).1]; simp),
+            (time_of_mem_scheduleLoop hs hd).trans ht⟩
+      disp_flag := by
+        intro d hd
+        rw [Ne, alookup_markDispatched_eq_false]
+        rintro ⟨hf, hnm⟩
+        rcases List.mem_append.1 hd with hd | hd
+        · exact h.disp_flag d hd hf
+        · simp only [List.mem_map, Ev.dispatch.injEq, exists_eq_right] at hd
+          exact hnm (List.mem_map.2 ⟨d, hd, rfl⟩)
+      order := by
+        intro pre d post htr us hus u hu hue
+        rcases append_eq_append_cons htr with ⟨post', h1, _⟩ | ⟨pre', h1, h2⟩
+        · exact h.order _ _ _ h1 us hus u hu hue
+        · have hd : d ∈ ds := by
+            have : Ev.dispatch d ∈ ds.map Ev.dispatch := by rw [h2]; simp
+            simpa using this
+          obtain ⟨_, us', hus', hall⟩ := hmem.1 (List.mem_map.2 ⟨d, hd, rfl⟩)
+          rw [hus] at hus'; cases hus'
+          obtain ⟨ch, hch⟩ := (h.resolved u hue).1 (hall u hu)
+          exact ⟨ch, by rw [h1]; exact List.mem_append_left _ hch⟩
+      count := by
+        intro c
+        obtain ⟨hc1, hc2⟩ := h.count c
+        simp only [List.filter_append, List.length_append, filter_isAnswerOf_map_dispatch,
+          List.length_nil, Nat.add_zero]
+        by_cases hc : c ∈ ds.map Dispatch.comp
+        · have h0 : trace.filter (Ev.isDispatchOf c) = [] :=
+            filter_isDispatchOf_eq_nil (fun d hd hdc => h.disp_flag d hd (hdc ▸ (hmem.1 hc).1))
+          have h1 := length_filter_isDispatchOf_map_dispatch hnd c
+          rw [h0] at hc2 ⊢
+          simp only [List.length_nil, Nat.le_zero_eq] at hc2
+          simp only [List.length_nil, hc2]
+          omega
+        · rw [filter_isDispatchOf_map_dispatch_of_not_mem hc]
+          simpa using ⟨hc1, hc2⟩ }
+  · intro c hc
+    obtain ⟨hf, hnm⟩ := alookup_markDispatched_eq_false.1 hc
+    obtain ⟨us, hus⟩ := Option.isSome_iff_exists.1
+      ((scheduleLoop_spec hs).2 (c, false) (mem_of_alookup_eq_some hf) rfl)
+    refine ⟨us, hus, ?_⟩
+    apply Classical.byContradiction
+    intro hno
+    apply hnm
+    apply hmem.2
+    refine ⟨hf, us, hus, fun u hu => ?_⟩
+    apply Classical.byContradiction
+    intro hne
+    exact hno ⟨u, hu, fun h' => hne (alookup_markDispatched_eq_none.1 h')⟩
+
+/-! ### the closed system: decomposition of `init` and `step` -/
+
+/-- the ticker state inside `propagate` after the answer of `src` has been taken in and
+before `schedule_possible_updates` runs. -/
+def Ticker.afterAnswer (w : Wiring) (tk : Ticker Val) (src : Comp) (changes : List (Port × Val)) :
+    Ticker Val :=
+  { tk with toUpdate := aerase tk.toUpdate src, inputs := addInputs tk.inputs (w.route src changes) }
+
+theorem TickSys.init_eq_ok {w : Wiring} {t : SimTime} {roots : List Comp} {s : TickSys Val}
+    (h : TickSys.init w t roots = .ok s) :
+    ∃ ds, Ticker.scheduleLoop w (Ticker.startTick w t roots : Ticker Val)
+        (Ticker.startTick w t roots : Ticker Val).toUpdate = .ok ds ∧
+      s.tk.toUpdate = markDispatched (Ticker.startTick w t roots : Ticker Val).toUpdate
+        (ds.map Dispatch.comp) ∧
+      s.tk.time = t ∧ s.tk.finished = false ∧ s.pending = ds ∧ s.trace = ds.map Ev.dispatch := by
+  simp only [TickSys.init, Ticker.call, Ticker.schedule] at h
+  cases hr : Ticker.scheduleLoop w (Ticker.startTick w t roots : Ticker Val)
+      (Ticker.startTick w t roots : Ticker Val).toUpdate with
+  | error e => simp [hr, Except.map] at h
+  | ok ds =>
+    simp only [hr, Except.map, Except.ok.injEq] at h
+    subst h
+    exact ⟨ds, rfl, rfl, rfl, rfl, rfl, rfl⟩
+
+theorem TickSys.step_eq_ok {w : Wiring} {react : React Val} {s s' : TickSys Val} {i : Nat}
+    (h : s.step w react i = some (.ok s')) :
+    ∃ d ds, s.pending[i]? = some d ∧ alookup s.tk.toUpdate d.comp ≠ none ∧ d.time = s.tk.time ∧
+      Ticker.scheduleLoop w (s.tk.afterAnswer w d.comp (answerOf react d))
+        (aerase s.tk.toUpdate d.comp) = .ok ds ∧
+      s'.tk.toUpdate = markDispatched (aerase s.tk.toUpdate d.comp) (ds.map Dispatch.comp) ∧
+      s'.tk.time = s.tk.time ∧
+      (s'.tk.finished = true ↔ s'.tk.toUpdate = [] ∨ s.tk.finished = true) ∧
+      s'.pending = s.pending.eraseIdx i ++ ds ∧
+      s'.trace = s.trace ++ [Ev.answer d.comp (answerOf react d)] ++ ds.map Ev.dispatch := by
+  simp only [TickSys.step] at h
+  cases hd : s.pending[i]? with
+  | none => simp [hd] at h
+  | some d =>
+    simp only [hd, Option.some.injEq, Ticker.propagate] at h
+    refine ⟨d, ?_⟩
+    by_cases h1 : (alookup s.tk.toUpdate d.comp).isNone = true
+    · simp [h1, Except.map] at h
+    · simp only [h1, Bool.false_eq_true, if_false] at h
+      by_cases h2 : d.time ≠ s.tk.time
+      · simp [h2, Except.map] at h
+      · simp only [h2, if_false, Ticker.schedule] at h
+        cases hr : Ticker.scheduleLoop w (s.tk.afterAnswer w d.comp (answerOf react d))
+            (aerase s.tk.toUpdate d.comp) with
+        | error e =>
+          simp only [Ticker.afterAnswer] at hr
+          simp [hr, Except.map] at h
+        | ok ds =>
+          simp only [Ticker.afterAnswer] at hr
+          simp only [hr, Except.map, Except.ok.injEq] at h
+          subst h
+          refine ⟨ds, rfl, ?_, ?_, rfl, ?_, ?_, ?_, ?_, ?_⟩
+          · simpa using h1
+          · simpa using h2
+          · dsimp only; split <;> rfl
+          · dsimp only; split <;> rfl
+          · dsimp only
+            split
+            · rename_i he; simp at he; simp [he]
+            · rename_i he; simp at he; simp [he]
+          · dsimp only; split <;> rfl
+          · dsimp only; split <;> rfl
+
+/-- **The tick invariant** of the closed system. -/
+structure TickInv (w : Wiring) (t : SimTime) (roots : List Comp) (s : TickSys Val) : Prop where
+  pre : PreInv w t roots s.tk.toUpdate s.pending s.trace
+  complete : Complete w s.tk.toUpdate
+  time : s.tk.time = t
+  fin : s.tk.finished = true → s.tk.toUpdate = []
+
+theorem TickInv.init {w : Wiring} {t : SimTime} {roots : List Comp} {s : TickSys Val}
+    (h : TickSys.init w t roots = .ok s) : TickInv w t roots s := by
+  obtain ⟨ds, hs, htu, ht, hfin, hp, htr⟩ := TickSys.init_eq_ok h
+  have := (PreInv.start (Val := Val) w t roots).schedule rfl hs
+  refine ⟨?_, ?_, ht, by simp [hfin]⟩
+  · rw [htu, hp, htr]; simpa using this.1
+  · rw [htu]; exact this.2
+
+theorem TickInv.step {w : Wiring} {react : React Val} {t : SimTime} {roots : List Comp}
+    {s s' : TickSys Val} {i : Nat} (hs : TickInv w t roots s)
+    (h : s.step w react i = some (.ok s')) : TickInv w t roots s' := by
+  obtain ⟨d, ds, hd, hne, hdt, hsl, htu, ht, hfin, hp, htr⟩ := TickSys.step_eq_ok h
+  have := PreInv.schedule (tk := s.tk.afterAnswer w d.comp (answerOf react d))
+    (hs.pre.answer hd (answerOf react d)) hs.time hsl
+  refine ⟨?_, ?_, ht.trans hs.time, ?_⟩
+  · rw [htu, hp, htr]; exact this.1
+  · rw [htu]; exact this.2
+  · intro hf
+    rcases hfin.1 hf with h' | h'
+    · exact h'
+    · have := hs.fin h'
+      rw [this] at hne
+      simp at hne
+
+theorem TickSys.Reachable.inv {w : Wiring} {react : React Val} {t : SimTime} {roots : List Comp}
+    {s : TickSys Val} (hs : s.Reachable w react t roots) : TickInv w t roots s := by
+  induction hs with
+  | init h => exact TickInv.init h
+  | step _ h ih => exact ih.step h
+
+/-! ### no failure, progress, measure -/
+
+theorem TickSys.init_ok_of {w : Wiring} (t : SimTime) {roots : List Comp}
+    (hroots : ∀ c ∈ extent w roots, (w.ups c).isSome) :
+    ∃ s : TickSys Val, TickSys.init w t roots = .ok s := by
+  obtain ⟨ds, hds⟩ := scheduleLoop_ok (w := w) (Ticker.startTick w t roots : Ticker Val)
+    (l := (Ticker.startTick w t roots : Ticker Val).toUpdate)
+    (fun e he _ => hroots e.1 (startTick_toUpdate (Val := Val) w t roots ▸ mem_akeys_of_mem he))
+  simp only [TickSys.init, Ticker.call, Ticker.schedule, hds, Except.map]
+  exact ⟨_, rfl⟩
+
+theorem TickInv.step_ok {w : Wiring} {react : React Val} {t : SimTime} {roots : List Comp}
+    (hroots : ∀ c ∈ extent w roots, (w.ups c).isSome)
+    {s : TickSys Val} (hs : TickInv w t roots s) {i : Nat} (hi : i < s.pending.length) :
+    ∃ s', s.step w react i = some (.ok s') := by
+  have hd : s.pending[i]? = some s.pending[i] := List.getElem?_eq_getElem hi
+  generalize s.pending[i] = d at hd
+  have hdm : d ∈ s.pending := List.mem_of_getElem? hd
+  have h0 : alookup s.tk.toUpdate d.comp = some true := (hs.pre.pend_flag _).1 ⟨d, hdm, rfl⟩
+  have htime : d.time = s.tk.time :=
+    (hs.pre.disp_ext d (hs.pre.pend_trace d hdm)).2.trans hs.time.symm
+  obtain ⟨ds, hds⟩ := scheduleLoop_ok (w := w) (s.tk.afterAnswer w d.comp (answerOf react d))
+    (l := aerase s.tk.toUpdate d.comp)
+    (fun e he _ => hroots e.1 (hs.pre.keys_ext e.1 (alookup_ne_none_iff.2
+      (mem_akeys_of_mem_akeys_aerase (mem_akeys_of_mem he)))))
+  simp only [Ticker.afterAnswer] at hds
+  simp only [TickSys.step, hd, Ticker.propagate, h0, Option.isNone_some, Bool.false_eq_true,
+    if_false, htime, ne_eq, not_true_eq_false, Ticker.schedule, hds, Except.map]
+  exact ⟨_, rfl⟩
+
+theorem TickInv.progress {w : Wiring} (hacyc : w.Acyclic) {t : SimTime} {roots : List Comp}
+    {s : TickSys Val} (hs : TickInv w t roots s) (hne : s.tk.toUpdate ≠ []) : s.pending ≠ [] := by
+  obtain ⟨rank, hr⟩ := hacyc
+  have key : ∀ n c, rank c < n → alookup s.tk.toUpdate c ≠ none → s.pending ≠ [] := by
+    intro n
+    induction n with
+    | zero => intro c hc; omega
+    | succ n ih =>
+      intro c hc hcne
+      cases hl : alookup s.tk.toUpdate c with
+      | none => exact absurd hl hcne
+      | some b =>
+        cases b with
+        | true =>
+          obtain ⟨d, hd, _⟩ := (hs.pre.pend_flag c).2 hl
+          exact List.ne_nil_of_mem hd
+        | false =>
+          obtain ⟨us, hus, u, hu, hune⟩ := hs.complete c hl
+          have := hr c us u hus hu
+          exact ih u (by omega) hune
+  cases htu : s.tk.toUpdate with
+  | nil => exact absurd htu hne
+  | cons e rest =>
+    refine key (rank e.1 + 1) e.1 (Nat.lt_succ_self _) ?_
+    rw [htu, alookup_ne_none_iff]; simp
+
+theorem TickSys.step_measure' {w : Wiring} {react : React Val} {s s' : TickSys Val} {i : Nat}
+    (h : s.step w react i = some (.ok s')) :
+    s'.tk.toUpdate.length + 1 = s.tk.toUpdate.length := by
+  obtain ⟨d, ds, _, hne, _, _, htu, _⟩ := TickSys.step_eq_ok h
+  rw [htu, length_markDispatched]
+  exact length_aerase (alookup_ne_none_iff.1 hne)
+
+theorem TickInv.finished_iff {w : Wiring} {react : React Val} {t : SimTime} {roots : List Comp}
+    {s s' : TickSys Val} {i : Nat} (hs : TickInv w t roots s)
+    (h : s.step w react i = some (.ok s')) :
+    s'.tk.finished = true ↔ s'.tk.toUpdate = [] := by
+  obtain ⟨d, ds, _, hne, _, _, _, _, hfin, _⟩ := TickSys.step_eq_ok h
+  rw [hfin]
+  constructor
+  · rintro (h' | h')
+    · exact h'
+    · have := hs.fin h'
+      rw [this] at hne
+      simp at hne
+  · exact Or.inl
+
 end Tickit
